@@ -14,6 +14,7 @@ import (
 	"strconv"
 	"strings"
 	"sync"
+	"sync/atomic"
 	"time"
 
 	"github.com/hashicorp/memberlist"
@@ -213,6 +214,17 @@ func (w *c09Worker) inject(f []string) string {
 			c.Delegate.NotifyMsg(msg)
 		}()
 		return res
+	case "closerace": // closerace <rounds> <feeders> <seed>: replies arrive while the application closes the query
+		if len(f) != 5 {
+			return "bad-op"
+		}
+		rounds, e1 := strconv.Atoi(f[2])
+		feeders, e2 := strconv.Atoi(f[3])
+		seed, e3 := strconv.ParseInt(f[4], 10, 64)
+		if e1 != nil || e2 != nil || e3 != nil || rounds < 0 || feeders < 1 || feeders > 64 {
+			return "bad-op"
+		}
+		return w.closeRace(rounds, feeders, seed)
 	case "qlocal": // the application issues a query: <name> <payload> <ack 0|1>; replies then come from the network
 		if len(f) != 5 {
 			return "bad-op"
@@ -285,6 +297,118 @@ func (w *c09Worker) inject(f []string) string {
 		}
 	default:
 		return "bad-op"
+	}
+	return "ok"
+}
+
+// closeRace: a schedule-dependent search.  `lanes` application goroutines work in parallel; per round each registers
+// one query exactly as Serf.Query registers it (alternately with and without acks), a network goroutine delivers
+// matching responses and acks for it through Delegate.NotifyMsg — what the memberlist packet handler does — and the
+// application closes the query early with QueryResponse.Close() after a pseudo-random short delay.  Whatever the
+// timing, late replies must be dropped; a panic of the delivering goroutine ("send on closed channel") is caught and
+// reported with the round in which it happened.  `rounds` is the total over all lanes.
+func (w *c09Worker) closeRace(rounds, lanes int, seed int64) string {
+	s := w.n.S
+	d := w.n.Conf.MemberlistConfig.Delegate
+	// the worker normally runs on two processors; the race needs deliverer and closer truly in parallel
+	defer runtime.GOMAXPROCS(runtime.GOMAXPROCS(2*lanes + 1))
+	var failed atomic.Value
+	var lanesWG sync.WaitGroup
+	type job struct {
+		seq         int64
+		resp        *serf.QueryResponse
+		plain, acks []byte
+		sent        int32
+	}
+	for l := 0; l < lanes; l++ {
+		lanesWG.Add(1)
+		go func(l int) {
+			defer lanesWG.Done()
+			rng := rand.New(rand.NewSource(seed*64 + int64(l)))
+			// the lane's network goroutine lives as long as the lane and spins between rounds, so that a round costs
+			// microseconds (waking a parked goroutine would dominate it)
+			var cur atomic.Pointer[job]
+			var doneSeq, stop int64
+			var period time.Duration
+			netDone := make(chan struct{})
+			go func() {
+				defer close(netDone)
+				last := int64(0)
+				for atomic.LoadInt64(&stop) == 0 {
+					j := cur.Load()
+					if j == nil || j.seq == last {
+						continue
+					}
+					last = j.seq
+					func() {
+						defer func() {
+							if r := recover(); r != nil {
+								failed.Store(fmt.Sprintf("%v round=%d", r, j.seq-1))
+							}
+						}()
+						for n := 0; !j.resp.Finished(); n++ {
+							if n%2 == 0 {
+								d.NotifyMsg(j.plain)
+							} else {
+								d.NotifyMsg(j.acks)
+							}
+							atomic.AddInt32(&j.sent, 1)
+						}
+					}()
+					atomic.StoreInt64(&doneSeq, j.seq)
+				}
+			}()
+			for i := l; i < rounds && failed.Load() == nil; i += lanes {
+				lt := serf.LamportTime(uint64(1)<<40 + uint64(seed&0xffff)<<22 + uint64(i))
+				id := uint32(i + 1)
+				resp := serf.VerifRegisterQuery(s, 8, lt, id, i%2 == 0, time.Minute)
+				j := &job{seq: int64(i) + 1, resp: resp, plain: serf.VerifEncodeQueryResponse(lt, id, "n1", false, []byte("x")),
+					acks: serf.VerifEncodeQueryResponse(lt, id, "n1", true, nil)}
+				cur.Store(j)
+				// Watch the deliveries go by (their period is learnt across rounds) and aim the Close at the end of a
+				// delivery, where the handler decides whether the query is still open: most rounds close within the last
+				// few microseconds of the expected period, the rest anywhere in it.
+				want := int32(1 + rng.Intn(3))
+				seen, tLast := int32(0), time.Now()
+				for dl := tLast.Add(5 * time.Second); seen < want && failed.Load() == nil; {
+					if c := atomic.LoadInt32(&j.sent); c != seen {
+						now := time.Now()
+						if seen > 0 && c == seen+1 {
+							if d := now.Sub(tLast); period == 0 {
+								period = d
+							} else {
+								period += (d - period) / 8
+							}
+						}
+						seen, tLast = c, now
+					} else if time.Now().After(dl) {
+						break
+					}
+				}
+				if period > 0 {
+					off := period - time.Duration(rng.Int63n(int64(period/8)+1))
+					if rng.Intn(4) == 0 {
+						off = time.Duration(rng.Int63n(int64(period) + 1))
+					}
+					for time.Since(tLast) < off {
+					}
+				}
+				resp.Close() // the application is done with the query
+				for dl := time.Now().Add(5 * time.Second); atomic.LoadInt64(&doneSeq) != j.seq && time.Now().Before(dl); {
+				}
+				serf.VerifCloseQuery(s, resp)
+			}
+			atomic.StoreInt64(&stop, 1)
+			<-netDone
+		}(l)
+	}
+	lanesWG.Wait()
+	if v := failed.Load(); v != nil {
+		msg := v.(string)
+		if strings.Contains(msg, "send on closed channel") {
+			return "send-on-closed-channel " + msg[strings.Index(msg, "round="):]
+		}
+		return "PANIC " + msg
 	}
 	return "ok"
 }
@@ -623,7 +747,7 @@ func init() {
 			"Delegate.NotifyMsg/MergeRemoteState/LocalState, Ping.NotifyPingComplete, Merge.NotifyMerge, Alive.NotifyAlive, Events.NotifyJoin/Update/Leave, Conflict.NotifyConflict, plus replies to " +
 			"queries the node itself has open (application queries, key commands, the name-conflict vote); structure-aware cases: every message kind with arbitrary fields, filters, internal queries, " +
 			"relay envelopes, push/pull bodies, ping payloads, metadata; byte-level cases: random strings and bit-flip/truncate/extend/splice mutations of valid encodings; every case ends with `alive` " +
-			"(Members/Stats/State answer and a fresh user event is still delivered). Non-trivial: every case (each has ≥ 1 input that decodes past the type byte); distinct = distinct op lists",
+			"(Members/Stats/State answer and a fresh user event is still delivered); close-race cases are a SCHEDULE-DEPENDENT search: per round a query is registered as Serf.Query does, a network goroutine delivers matching responses/acks through NotifyMsg while the application calls QueryResponse.Close() at a moment aimed at the end of a delivery (12 000 rounds per case, 4 lanes); the replay is the op line with its round count and seed and reproduces with high but not certain probability. Non-trivial: every case (each has ≥ 1 input that decodes past the type byte); distinct = distinct op lists",
 		Gen:      c09Gen,
 		Exec:     c09Exec,
 		Isolate:  true,
